@@ -78,6 +78,15 @@ def text_level_premise(ctx, lines, impl, which):
     outs = ctx.run_model(["sep " + lines[i].split(" ", 1)[1] for i in sel], "sep")
     met = raw = noraw = 0
     examples = []
+    cls = {"P": "Q", "I": "R"}.get(which)
+    in_class = sum(1 for o in outs if cls and (cls + "1") in o.split(" "))
+    # the proved class must be inside the evaluated premise (a cross-check of the extraction against the theorem)
+    contradiction = [lines[i] for i, o in zip(sel, outs)
+                     if cls and (cls + "1") in o.split(" ") and (which + "1") not in o.split(" ")]
+    if contradiction:
+        ctx.violation({"kind": "proof-broken", "theorem_or_correspondence":
+                       "C01_rendered_statement_is_separable / C02_rendered_statement_is_separable_inline vs the extracted premise",
+                       "case": contradiction[0]}, no_input=True)
     for i, o in zip(sel, outs):
         ok = (which + "1") in o.split(" ")
         if ok:
@@ -97,6 +106,7 @@ def text_level_premise(ctx, lines, impl, which):
         pass
     ctx.cov["text_level_theorem"] = {
         "statements_evaluated": len(sel), "premise_met": met,
+        "in_the_class_for_which_the_premise_is_proved (query_plain)": in_class,
         "premise_not_met_raw_sql_given": raw, "premise_not_met_no_raw_sql": noraw,
         "examples_not_met_no_raw_sql": examples,
         "note": "premise = no engine token is read across a seam between two pieces of the rendered script "
